@@ -121,14 +121,6 @@ type fnCtx struct {
 	closures   map[string]*closureInfo
 	top        *frame
 	exitHooks  []func(st *State, fr *frame, exceptional bool)
-
-	guardHook   func(st *State, fr *frame, ins ssa.Instruction, ad *Addr, write bool)
-	sendHook    func(st *State, fr *frame, ins *ssa.Send)
-	recvHook    func(st *State, fr *frame, ins *ssa.UnOp)
-	chanLenHook func(st *State, fr *frame, call *ssa.Call, ch Val, k func(*State, Val))
-	closeHook   func(st *State, fr *frame, call *ssa.Call, ch Val, k func(*State, Val))
-	goHook      func(st *State, fr *frame, ins *ssa.Go)
-	blockHook   func(st *State, fr *frame, site string, spec *effSpec, recv *Val, args []Val)
 }
 
 type effClause struct {
